@@ -164,7 +164,12 @@ def check(pid, tier, seed, a, t0):
         solver_time += o.get("time", 0) or 0
         if o["verdict"] == "discharged":
             by_backend[o["backend"]] = by_backend.get(o["backend"], 0) + 1
-    refuted = [o for o in obligations if o["verdict"] in ("refuted", "disagree")]
+    # z3 `unsat` but cvc5 `sat` on the exported text (thorough tier cross-check): one of the two is wrong - the obligation
+    # is not counted as discharged and not reported as a violation either
+    for o in obligations:
+        if o["verdict"] == "disagree":
+            o["verdict"] = "unknown"
+    refuted = [o for o in obligations if o["verdict"] == "refuted"]
     unknown = [o for o in obligations if o["verdict"] == "unknown"]
     # ---------------------------------------------------------------- bounded part (stand-in + witness search)
     bres = None
